@@ -210,3 +210,24 @@ def if_chain_byte_tests(fn: PyxFunc, var: str) -> Iterator[Tuple[int, List[bytes
         if m:
             b = bytes_literal(m.group(1))
             yield idx, [bytes([c]) for c in b], ln.text
+
+
+def pyx_body_to_ast(fn: PyxFunc, relpath: str) -> List[ast.stmt]:
+    """Re-render a simple cdef function body as Python source (dropping `cdef T` declarators) and parse it.
+    Only for arithmetic helper functions; anything unparsable raises AnalysisError."""
+    out: List[str] = []
+    base = fn.body[0].indent if fn.body else 0
+    for ln in fn.body:
+        text = ln.text
+        m = re.match(r'cdef\s+[\w\.]+(?:\s*\*)?\s+(.*)$', text)
+        if m:
+            rest = m.group(1)
+            if '=' not in rest:
+                continue            # pure declaration
+            text = rest
+        out.append(' ' * (ln.indent - base) + text)
+    src = '\n'.join(out) + '\n'
+    try:
+        return ast.parse(src).body
+    except SyntaxError as exc:
+        raise AnalysisError(f'{relpath}: cannot re-parse body of {fn.qualname} as Python: {exc}') from exc
